@@ -1,5 +1,5 @@
 """C14 - mutating invocations on one repository are mutually exclusive."""
-import json, os, random, signal, subprocess, time
+import shutil, sys, json, os, random, signal, subprocess, time
 import vlib, runscen
 
 THEOREMS = [("Properties.C14", "C14_holds"), ("Properties.C14", "C14_multi_address_holds"), ("AsFound.C14", "C14_as_found_refuted")]
@@ -51,10 +51,10 @@ def snapshot(d):
         for x in dirs: out[os.path.relpath(os.path.join(root, x), d) + "/"] = 0
     return out
 
-def spawn(rr, api, points=None):
+def spawn(rr, api, points=None, prefix=()):
     env = dict(os.environ); env.update(vlib.GIT_ENV); env.update(rr.env())
     if points: env["MONORAIL_VERIF_POINTS"] = points
-    return subprocess.Popen([vlib.BIN_MONORAIL, "-f", os.path.join(rr.repo, "Monorail.json")] + ALL_SHAPES[api], cwd=rr.repo, env=env,
+    return subprocess.Popen(list(prefix) + [vlib.BIN_MONORAIL, "-f", os.path.join(rr.repo, "Monorail.json")] + ALL_SHAPES[api], cwd=rr.repo, env=env,
                             stdout=subprocess.PIPE, stderr=subprocess.PIPE)
 
 def lock_error(stderr):
@@ -224,25 +224,47 @@ def multi_address_host():
             try:
                 sk = socket.socket(fam, socket.SOCK_STREAM); sk.bind((sa[0], 0) if fam == socket.AF_INET else (sa[0], 0, 0, 0)); sk.close(); addrs.append(sa[0])
             except OSError: pass
-        if len(addrs) >= 2: return name, addrs
-    return None
+        if len(addrs) >= 2: return name, addrs, ()
+    return hosts_namespace()
+
+_NS = {}
+def hosts_namespace():
+    """No such name on this machine: give the invocations a private mount namespace whose /etc/hosts maps `lockhost` to
+    127.0.0.1 and 127.0.0.2 (unshare -m + bind mount; needs the privilege to do so, otherwise None)."""
+    if "v" in _NS: return _NS["v"]
+    _NS["v"] = None
+    if not shutil.which("unshare"): return None
+    hosts = os.path.join(vlib.CACHE, "lockhost.hosts")
+    try: base = open("/etc/hosts").read()
+    except OSError: base = "127.0.0.1 localhost\n"
+    open(hosts, "w").write(base.rstrip("\n") + "\n127.0.0.1 lockhost\n127.0.0.2 lockhost\n")
+    prefix = ("unshare", "-m", "sh", "-c", 'mount --bind "$0" /etc/hosts && exec "$@"', hosts)
+    probe = ("import socket,sys\nr=sorted(set(i[4][0] for i in socket.getaddrinfo('lockhost',0,type=socket.SOCK_STREAM)))\n"
+             "for a in r:\n s=socket.socket(); s.bind((a,0)); s.close()\nprint(' '.join(r))")
+    try: p = subprocess.run(list(prefix) + [sys.executable, "-c", probe], capture_output=True, timeout=20)
+    except Exception: return None
+    addrs = p.stdout.decode().split()
+    if p.returncode == 0 and addrs == ["127.0.0.1", "127.0.0.2"]: _NS["v"] = ("lockhost", addrs, prefix)
+    return _NS["v"]
 
 def multi_address_round(ctx, rng):
     found = multi_address_host()
     if found is None:
         ctx.count("multi_address_host_unavailable"); return
-    name, addrs = found
+    name, addrs, prefix = found
+    ctx.count("multi_address_host_" + ("native" if not prefix else "by_hosts_namespace"))
+    partial_hold_round(ctx, rng, name, addrs, prefix)
     rr = runscen.RunRepo(ctx, CFG, commands=["build"])
     try:
         full = json.load(open(os.path.join(rr.repo, "Monorail.json")))
         full["server"]["lock"]["host"] = name
         json.dump(full, open(os.path.join(rr.repo, "Monorail.json"), "w"))
         holder_api = rng.choice(list(APIS))
-        h = spawn(rr, holder_api, "after_lock_%s=sleep:1500" % holder_api)
+        h = spawn(rr, holder_api, "after_lock_%s=sleep:1500" % holder_api, prefix=prefix)
         t0 = time.time()
         while not listening(rr.lock_port) and time.time() - t0 < 10: time.sleep(0.01)
         time.sleep(0.1)
-        conts = [(a, spawn(rr, a)) for a in [next_shape(rng) for _ in range(3)]]
+        conts = [(a, spawn(rr, a, prefix=prefix)) for a in [next_shape(rng) for _ in range(3)]]
         results = []
         for api, p in conts:
             try: so, se = p.communicate(timeout=20)
@@ -259,6 +281,44 @@ def multi_address_round(ctx, rng):
                    detail={"what": "the lock host resolves to several addresses: contenders must still be refused while the holder is alive", "results": results, "holder_parked": parked})
     finally:
         rr.close()
+
+def partial_hold_round(ctx, rng, name, addrs, prefix):
+    """One address of the lock host is taken by someone else while invocation A starts, and free again when B starts 0.4 s
+    later (A, if it acquired, is parked for 1.5 s after acquisition).  A may be refused or may acquire - but A and B can never
+    both be past acquisition together: a lock that is content with a subset of its addresses lets each hold a different one."""
+    import socket
+    for k in range(len(addrs)):
+        rr = runscen.RunRepo(ctx, CFG, commands=["build"])
+        try:
+            full = json.load(open(os.path.join(rr.repo, "Monorail.json")))
+            full["server"]["lock"]["host"] = name
+            json.dump(full, open(os.path.join(rr.repo, "Monorail.json"), "w"))
+            fam = socket.AF_INET6 if ":" in addrs[k] else socket.AF_INET
+            foreign = socket.socket(fam, socket.SOCK_STREAM)
+            try: foreign.bind((addrs[k], rr.lock_port)); foreign.listen(1)
+            except OSError:
+                foreign.close(); ctx.count("partial_hold_foreign_bind_failed"); continue
+            a_api, b_api = rng.choice(["run", "checkpoint_update"]), next_shape(rng)
+            a = spawn(rr, a_api, "after_lock_%s=sleep:1500" % a_api, prefix=prefix)
+            time.sleep(0.4)
+            foreign.close()
+            a_done_early = a.poll() is not None
+            b = spawn(rr, b_api, prefix=prefix)
+            try: bo, be = b.communicate(timeout=30)
+            except subprocess.TimeoutExpired: b.kill(); bo, be = b.communicate()
+            a_alive_after_b = a.poll() is None
+            try: ao, ae = a.communicate(timeout=60)
+            except subprocess.TimeoutExpired: a.kill(); ao, ae = a.communicate()
+            a_acq, b_acq = not lock_error(ae), not lock_error(be)
+            both = a_acq and b_acq and a_alive_after_b and not a_done_early
+            ctx.count("partial_hold_A_%s" % ("acquired" if a_acq else "refused"))
+            ctx.record({"multi_address_host": name, "addresses": addrs, "foreign_on": addrs[k], "a": a_api, "b": b_api}, True, not both, not both, True,
+                       sample={"lock_host": name, "foreign_listener_on": addrs[k], "A": [a_api, a.returncode, a_acq], "B": [b_api, b.returncode, b_acq]},
+                       detail={"what": "two invocations past lock acquisition at the same time, each holding a different address of the one lock host" if both else "ok",
+                               "A": {"api": a_api, "rc": a.returncode, "acquired": a_acq, "alive_after_B": a_alive_after_b},
+                               "B": {"api": b_api, "rc": b.returncode, "acquired": b_acq}})
+        finally:
+            rr.close()
 
 def simultaneous_round(ctx, rng, n):
     rr = runscen.RunRepo(ctx, CFG, commands=["build"])
